@@ -95,11 +95,15 @@ def write_records(fmt, records):
     return buf.getvalue()
 
 
-def read_records(fmt, text, **kw):
+def read_records(fmt, text, calc_cis_trans=True, **kw):
+    if not calc_cis_trans:
+        kw = dict(kw)           # the readers' own default (no double-bond configuration from coordinates)
+    else:
+        kw = dict(kw, calc_cis_trans=True)
     if fmt == 'mrv':
-        return list(MRVRead(io.BytesIO(text.encode()), calc_cis_trans=True, **kw))
+        return list(MRVRead(io.BytesIO(text.encode()), **kw))
     cls = SDFRead if fmt in ('sdf', 'esdf') else RDFRead
-    return list(cls(io.StringIO(text), calc_cis_trans=True, **kw))
+    return list(cls(io.StringIO(text), **kw))
 
 
 PSEUDO = ['C[C@H](O)[C@@H](F)[C@H](O)C', 'C[C@H](O)[C@H](F)[C@@H](O)C', 'O[C@H]1C[C@@H](O)C[C@H](F)C1', 'O[C@H]1C[C@@H](O)C[C@@H](F)C1',
@@ -249,7 +253,23 @@ def roundtrip_molecule(ctx, m, fmt, src, rng):
     if len(back) != 1:
         ctx.violation('record-count-differs/%s' % fmt, '%s: wrote 1, read %d (title %r, meta %r)' % (src, len(back), m.name, dict(m._meta or {})), w)
         return
-    compare_molecule(ctx, fmt, m, back[0], src)
+    if compare_molecule(ctx, fmt, m, back[0], src) and any(a.stereo is not None for _, a in m.atoms()):
+        # the same text through the readers' default options: tetrahedral and allene labels do not depend on calc_cis_trans
+        try:
+            plain = read_records(fmt, text, calc_cis_trans=False)
+        except Exception as e:
+            ctx.violation('reader-raises-on-own-output/%s/%s' % (fmt, type(e).__name__), '%s (default options): %r' % (src, e), w)
+            return
+        if len(plain) != 1:
+            ctx.violation('record-count-differs/%s' % fmt, '%s: wrote 1, read %d with default options' % (src, len(plain)), w)
+            return
+        da = {k: v for k, v in T.stereo_descriptors(m).items() if k[0] != 'CT'}
+        db = {k: v for k, v in T.stereo_descriptors(plain[0]).items() if k[0] != 'CT'}
+        ctx.counters['stereo.labels-compared-default-options'] += len(da)
+        if da != db:
+            keys = [k for k in set(da) | set(db) if da.get(k) != db.get(k)]
+            ctx.violation('configuration-differs/%s/%s/default-reader-options' % (keys[0][0], fmt),
+                          '%s: %r' % (src, [(k, da.get(k), db.get(k)) for k in keys[:2]]), w)
 
 
 def roundtrip_reaction(ctx, pool, fmt, rng):
